@@ -3,9 +3,10 @@ from . import common
 from . import c03_c06_lib as lib
 
 MODULE = "StorageModel.Properties.C06"
-THEOREMS = ["inv_init", "inv_step", "inv_tx", "inv_reachable", "delete_no_trace", "delete_no_trace_owner",
-            "absent_no_trace", "delete_forgets", "recreate_fresh", "recreate_accepted_iff",
-            "recreate_as_if_never_existed", "child_create_over_parent_reindexes", "child_create_over_parent_no_trace"]
+THEOREMS = ["inv_init", "inv_step", "inv_tx", "inv_reachable", "absent_no_trace", "delete_no_trace",
+            "delete_no_trace_owner", "cascade_no_trace", "delete_forgets", "recreate_fresh", "recreate_accepted_iff",
+            "recreate_as_if_never_existed", "child_create_over_parent_reindexes", "child_create_over_parent_no_trace",
+            "rc_and_child_links_no_trace", "cascade_witness"]
 
 A_IDS = {"61", "62", "63", "64"}
 
@@ -28,8 +29,12 @@ def stats_of(case, impl):
         for op in tx:
             f = op.split(":")
             inc("op_" + f[0])
-            if f[0] == "ua" and f[7] != "*":
+            if f[0] == "ua" and f[8] != "*":
                 inc("op_ua_patch")
+            if f[0] == "cc" and f[9] != ".":
+                inc("op_cc_with_child_owned_links")
+            if f[0] in ("ca", "ua", "cc") and f[6] not in ("~", "-"):
+                inc("op_with_dep")
     recs = lib.parse_records(impl) or []
     live = set()
     ever_deleted = set()
